@@ -987,3 +987,21 @@ func sortStringsCached(ks []string) {
 	}
 	sortCache[key] = append([]string(nil), ks...)
 }
+
+// IsParkedIdle reports whether g is parked on an operation that cannot
+// proceed right now (it is waiting for someone else).
+func (s *Sim) IsParkedIdle(g *G) bool {
+	if g.done {
+		return true
+	}
+	if g.op.kind == opNone {
+		return false // executing (an operation is set before the scheduler runs and cleared on resume)
+	}
+	if g.op.kind == opSleep {
+		return false // will wake by itself
+	}
+	save := s.evaluating
+	r := !s.opReady(g)
+	s.evaluating = save
+	return r
+}
